@@ -5,15 +5,19 @@
 //! ops:  `file <len> <seed> <pat> <period> <badLo> <badHi>`  then
 //!       `read <offset> <size>` | `until <lo> <hi> <delim>` | `into <offset> <size>` | `t <k> <op…>`
 //!       (a maximal run of consecutive `t` lines = one section of concurrently running threads)
+//!       shared.rs layer: `entire` | `wread <o> <n>` | `wuntil <lo> <hi> <d>` (through `<&FileContentsWrapper as
+//!       ReadRef>`) | `vread <base> <k> <s1> <z1> … <o> <n>` | `vuntil <base> <k> <s1> <z1> … <lo> <hi> <d>` (through a
+//!       `RangeReadRef`: `<base>` = `full` or `r:<start>:<size>`, then `k` nested `make_subrange(s_i, z_i)`)
 //!       `sync` (after a section): prints `sync overlap=<0|1>` — whether two threads of the section were ever
 //!       inside this cache's byte source at the same time (see `Gate`)
 //! out:  per op `ok <len> <hex>` (len ≤ 40) | `ok <len> h:<fnv1a-64>` | `err:<kind>` | `panic` (ends the case)
+use samply_symbols::object::ReadRef;
 use samply_symbols::{
     FileAndPathHelperResult, FileByteSource, FileContentsWithChunkedCaching, FileContentsWrapper,
 };
 use std::panic::{catch_unwind, AssertUnwindSafe};
 use std::cell::Cell;
-use std::sync::atomic::{AtomicBool, AtomicU64, Ordering};
+use std::sync::atomic::{AtomicBool, AtomicI64, AtomicU64, Ordering};
 use std::sync::{Arc, Barrier};
 use std::time::Instant;
 use verif_harness::common::*;
@@ -151,6 +155,9 @@ struct MemSource {
     calls: Arc<AtomicU64>,
     unaligned_calls: Arc<AtomicU64>,
     gate: Arc<Gate>,
+    /// `srcmode <k>`: a request ending exactly at EOF is answered with success but `k` bytes too few (`k > 0`) or
+    /// `-k` zero bytes too many (`k < 0`) — the excluded point of the theorems' hypothesis `Faithful`
+    mode: Arc<AtomicI64>,
 }
 
 impl FileByteSource for MemSource {
@@ -180,6 +187,15 @@ impl MemSource {
         match &self.data {
             Some(d) => buffer.extend_from_slice(&d[offset as usize..end as usize]),
             None => buffer.extend((offset..end).map(|i| gen_byte(&self.g, i))),
+        }
+        let k = self.mode.load(Ordering::SeqCst);
+        if k != 0 && end == self.g.len && size > 0 {
+            if k > 0 {
+                let cut = (k as u64).min(size as u64) as usize;
+                buffer.truncate(buffer.len() - cut);
+            } else {
+                buffer.extend(std::iter::repeat(0u8).take(k.unsigned_abs() as usize));
+            }
         }
         Ok(())
     }
@@ -222,11 +238,69 @@ fn show_err(e: &(dyn std::error::Error + Send + Sync)) -> String {
     format!("err:{kind}")
 }
 
+/// a `RangeReadRef`: `full_range()` / `range(start, size)` and up to three nested `make_subrange` calls
+#[derive(Clone, Copy, Debug, PartialEq)]
+struct ViewSpec {
+    base: Option<(u64, u64)>,
+    subs: [(u64, u64); 3],
+    k: usize,
+}
+
+impl ViewSpec {
+    fn text(&self) -> String {
+        let mut t = match self.base {
+            None => "full".to_string(),
+            Some((s, z)) => format!("r:{s}:{z}"),
+        };
+        t.push_str(&format!(" {}", self.k));
+        for &(s, z) in &self.subs[..self.k] {
+            t.push_str(&format!(" {s} {z}"));
+        }
+        t
+    }
+    /// parses `<base> <k> <s1> <z1> …` and returns the remaining words
+    fn parse<'a>(w: &'a [&'a str]) -> Option<(ViewSpec, &'a [&'a str])> {
+        let base = match *w.first()? {
+            "full" => None,
+            b => {
+                let p: Vec<&str> = b.split(':').collect();
+                if p.len() != 3 || p[0] != "r" {
+                    return None;
+                }
+                Some((p[1].parse().ok()?, p[2].parse().ok()?))
+            }
+        };
+        let k: usize = w.get(1)?.parse().ok()?;
+        if k > 3 || w.len() < 2 + 2 * k {
+            return None;
+        }
+        let mut subs = [(0u64, 0u64); 3];
+        for i in 0..k {
+            subs[i] = (w[2 + 2 * i].parse().ok()?, w[3 + 2 * i].parse().ok()?);
+        }
+        Some((ViewSpec { base, subs, k }, &w[2 + 2 * k..]))
+    }
+    /// where the view starts in the file (`None`: the sum of the starts does not fit `u64`)
+    fn start(&self) -> Option<u64> {
+        let mut s = self.base.map_or(0, |b| b.0);
+        for &(a, _) in &self.subs[..self.k] {
+            s = s.checked_add(a)?;
+        }
+        Some(s)
+    }
+}
+
 #[derive(Clone, Copy, Debug)]
 enum Op {
     Read(u64, u64),
     Until(u64, u64, u8),
     Into(u64, u64),
+    // the shared.rs layer
+    Entire,
+    WRead(u64, u64),
+    WUntil(u64, u64, u8),
+    VRead(ViewSpec, u64, u64),
+    VUntil(ViewSpec, u64, u64, u8),
 }
 
 impl Op {
@@ -235,6 +309,11 @@ impl Op {
             Op::Read(o, n) => format!("read {o} {n}"),
             Op::Until(a, b, d) => format!("until {a} {b} {d}"),
             Op::Into(o, n) => format!("into {o} {n}"),
+            Op::Entire => "entire".to_string(),
+            Op::WRead(o, n) => format!("wread {o} {n}"),
+            Op::WUntil(a, b, d) => format!("wuntil {a} {b} {d}"),
+            Op::VRead(v, o, n) => format!("vread {} {o} {n}", v.text()),
+            Op::VUntil(v, a, b, d) => format!("vuntil {} {a} {b} {d}", v.text()),
         }
     }
     fn parse(w: &[&str]) -> Option<Op> {
@@ -243,19 +322,76 @@ impl Op {
             "read" if w.len() == 3 => Some(Op::Read(n(1)?, n(2)?)),
             "until" if w.len() == 4 => Some(Op::Until(n(1)?, n(2)?, n(3)? as u8)),
             "into" if w.len() == 3 => Some(Op::Into(n(1)?, n(2)?)),
+            "entire" if w.len() == 1 => Some(Op::Entire),
+            "wread" if w.len() == 3 => Some(Op::WRead(n(1)?, n(2)?)),
+            "wuntil" if w.len() == 4 => Some(Op::WUntil(n(1)?, n(2)?, n(3)? as u8)),
+            "vread" => {
+                let (v, rest) = ViewSpec::parse(&w[1..])?;
+                let m = |k: usize| rest.get(k).and_then(|s| s.parse::<u64>().ok());
+                if rest.len() != 2 {
+                    return None;
+                }
+                Some(Op::VRead(v, m(0)?, m(1)?))
+            }
+            "vuntil" => {
+                let (v, rest) = ViewSpec::parse(&w[1..])?;
+                let m = |k: usize| rest.get(k).and_then(|s| s.parse::<u64>().ok());
+                if rest.len() != 3 {
+                    return None;
+                }
+                Some(Op::VUntil(v, m(0)?, m(1)?, m(2)? as u8))
+            }
             _ => None,
         }
     }
+    /// the cache-level request behind a call of the shared.rs layer (saturating; only used to shape later
+    /// requests and for statistics)
+    fn under(&self, len: u64) -> Op {
+        match *self {
+            Op::Entire => Op::Read(0, len),
+            Op::WRead(o, n) => Op::Read(o, n),
+            Op::WUntil(a, b, d) => Op::Until(a, b, d),
+            Op::VRead(v, o, n) => Op::Read(v.start().unwrap_or(u64::MAX).saturating_add(o), n),
+            Op::VUntil(v, a, b, d) => {
+                let s = v.start().unwrap_or(u64::MAX);
+                Op::Until(s.saturating_add(a), s.saturating_add(b), d)
+            }
+            o => o,
+        }
+    }
+}
+
+fn build_view<'a>(cache: &'a Cache, v: &ViewSpec) -> impl ReadRef<'a> {
+    let mut view = match v.base {
+        None => cache.full_range(),
+        Some((s, z)) => cache.range(s, z),
+    };
+    for &(s, z) in &v.subs[..v.k] {
+        view = view.make_subrange(s, z);
+    }
+    view
 }
 
 /// one call into the real code; `None` = it panicked
 fn run_op(cache: &Cache, op: Op) -> Option<String> {
     // in-bounds requests of more than 16 MiB are not executed (never generated; guards replays)
-    if let Op::Read(o, n) | Op::Into(o, n) = op {
-        if n > (1 << 24) && o.checked_add(n).map_or(false, |e| e <= cache.len()) {
-            return Some("skip:too-large".to_string());
+    let big = |o: u128, n: u64| n > (1 << 24) && o + n as u128 <= cache.len() as u128;
+    let skip = match op {
+        Op::Read(o, n) | Op::Into(o, n) | Op::WRead(o, n) => big(o as u128, n),
+        Op::VRead(v, o, n) => {
+            let s: u128 = v.base.map_or(0, |b| b.0 as u128) + v.subs[..v.k].iter().map(|p| p.0 as u128).sum::<u128>();
+            big(s + o as u128, n)
         }
+        Op::Entire => cache.len() > (1 << 24),
+        _ => false,
+    };
+    if skip {
+        return Some("skip:too-large".to_string());
     }
+    let unit = |r: Result<&[u8], ()>| match r {
+        Ok(b) => show_bytes(b),
+        Err(()) => "err:readref".to_string(),
+    };
     catch_unwind(AssertUnwindSafe(|| match op {
         Op::Read(o, n) => match cache.read_bytes_at(o, n) {
             Ok(b) => show_bytes(b),
@@ -279,6 +415,16 @@ fn run_op(cache: &Cache, op: Op) -> Option<String> {
                 Err(e) => show_err(&*e),
             }
         }
+        Op::Entire => match cache.read_entire_data() {
+            Ok(b) => show_bytes(b),
+            Err(e) => show_err(&*e),
+        },
+        // `impl ReadRef for &FileContentsWrapper` (what `object` / `gimli` call)
+        Op::WRead(o, n) => unit(ReadRef::read_bytes_at(cache, o, n)),
+        Op::WUntil(a, b, d) => unit(ReadRef::read_bytes_at_until(cache, a..b, d)),
+        // `RangeReadRef`
+        Op::VRead(v, o, n) => unit(build_view(cache, &v).read_bytes_at(o, n)),
+        Op::VUntil(v, a, b, d) => unit(build_view(cache, &v).read_bytes_at_until(a..b, d)),
     }))
     .ok()
 }
@@ -326,6 +472,7 @@ fn near(rng: &mut Rng, g: &Gen, prev: &[Op]) -> u64 {
             Op::Read(o, n) => o.saturating_add(rng.below(n + 1)),
             Op::Until(a, b, _) => a.saturating_add(rng.below(b.saturating_sub(a).min(LIMIT) + 1)),
             Op::Into(o, _) => o,
+            _ => 0, // `prev` holds cache-level requests only
         },
         _ => rng.below(g.len + 1),
     };
@@ -360,6 +507,7 @@ fn gen_read(rng: &mut Rng, g: &Gen, prev: &[Op]) -> Op {
                 Op::Read(o, n) => (o, n.min(4 * CH)),
                 Op::Until(a, b, _) => (a, b.saturating_sub(a).min(LIMIT)),
                 Op::Into(o, n) => (o, n.min(4 * CH)),
+                _ => (0, 1),
             };
             let start = o.saturating_add(rng.below(n + 1));
             let chunk_end = (o.saturating_add(n) / CH + 1).saturating_mul(CH);
@@ -454,7 +602,111 @@ fn tame(rng: &mut Rng, g: &Gen, op: Op) -> Op {
 
 fn gen_op(rng: &mut Rng, g: &Gen, data: &[u8], prev: &[Op]) -> Op {
     let op = gen_op_raw(rng, g, data, prev);
-    tame(rng, g, op)
+    let op = tame(rng, g, op);
+    // about one call in six goes through the shared.rs layer instead
+    if rng.chance(1, 6) {
+        to_view_op(rng, g, op)
+    } else {
+        op
+    }
+}
+
+/// enable once the finding `C13-subrange-start-overflow` is recorded in KNOWN_FINDINGS.txt (or repaired):
+/// `make_subrange` chains whose starts add up to 2^64 or more (shared.rs:1057 adds unchecked: panic with
+/// overflow checks, wrapped offset in release). See notes/C13.md, "Improvement round".
+const GEN_SUBRANGE_OVERFLOW: bool = false;
+
+/// a `RangeReadRef` whose start is at or below `target` (mostly), built from a base and 0..3 nested
+/// sub-ranges with arbitrary sizes (shared.rs never consults them), and the remaining distance to `target`
+fn gen_view(rng: &mut Rng, g: &Gen, target: u64) -> (ViewSpec, u64) {
+    let mut budget = match rng.below(6) {
+        0 => 0,
+        1 => target,
+        2 => target.min(rng.below(CH + 1)),
+        3 => (target / CH) * CH,
+        _ => rng.below(target.saturating_add(1)),
+    };
+    let k = rng.below(4) as usize;
+    fn size(rng: &mut Rng, g: &Gen) -> u64 {
+        match rng.below(6) {
+            0 => 0,
+            1 => 1,
+            2 => g.len,
+            3 => u64::MAX,
+            _ => rng.below(g.len.saturating_add(2)),
+        }
+    }
+    let mut parts: Vec<u64> = Vec::new();
+    for _ in 0..k {
+        let a = if rng.chance(1, 3) { 0 } else { rng.below(budget.saturating_add(1)) };
+        budget -= a;
+        parts.push(a);
+    }
+    // what is left of the budget is the base's start, unless the base is `full_range()`
+    let full = rng.chance(1, 3);
+    let mut subs = [(0u64, 0u64); 3];
+    for (i, a) in parts.iter().enumerate() {
+        subs[i] = (*a, size(rng, g));
+    }
+    let base = if full { None } else { Some((budget, size(rng, g))) };
+    let v = ViewSpec { base, subs, k };
+    let s = v.start().unwrap_or(0);
+    (v, target.saturating_sub(s))
+}
+
+/// the same request issued through the shared.rs layer
+fn to_view_op(rng: &mut Rng, g: &Gen, op: Op) -> Op {
+    match op {
+        Op::Read(o, n) => match rng.below(10) {
+            0 if g.len <= 4 * CH && rng.chance(1, 3) => Op::Entire,
+            1 | 2 => Op::WRead(o, n),
+            3 => {
+                // shifted offset overflows u64: `checked_add` must turn it into a clean error
+                let s = u64::MAX - rng.below(50);
+                let v = ViewSpec { base: Some((s, rng.below(100))), subs: [(0, 0); 3], k: 0 };
+                Op::VRead(v, rng.range(u64::MAX - s, u64::MAX - s + 60), n.min(100))
+            }
+            4 if GEN_SUBRANGE_OVERFLOW => gen_subrange_overflow(rng, g),
+            _ => {
+                let (v, rest) = gen_view(rng, g, o);
+                Op::VRead(v, rest, n)
+            }
+        },
+        Op::Until(a, b, d) => match rng.below(4) {
+            0 => Op::WUntil(a, b, d),
+            _ => {
+                let (v, rest) = gen_view(rng, g, a.min(b));
+                let s = a.min(b) - rest;
+                Op::VUntil(v, a - s, b - s, d)
+            }
+        },
+        o => o,
+    }
+}
+
+/// excluded point of `C13_shared_step` (`startOk`): the starts of a `make_subrange` chain reach 2^64
+fn gen_subrange_overflow(rng: &mut Rng, g: &Gen) -> Op {
+    let a = u64::MAX - rng.below(3 * CH);
+    let b = u64::MAX - a + 1 + rng.below(g.len.min(1 << 40) + 2); // a + b wraps to `below(len + 2)`
+    let mut subs = [(0u64, 0u64); 3];
+    let (base, k) = match rng.below(3) {
+        0 => {
+            subs[0] = (b, rng.below(100));
+            (Some((a, 10)), 1)
+        }
+        1 => {
+            subs[0] = (a, 5);
+            subs[1] = (b, 5);
+            (None, 2)
+        }
+        _ => {
+            subs[0] = (1, 5);
+            subs[1] = (a - 1, 5);
+            subs[2] = (b, u64::MAX);
+            (Some((0, g.len)), 3)
+        }
+    };
+    Op::VRead(ViewSpec { base, subs, k }, rng.below(4), rng.range(1, 9))
 }
 
 fn gen_op_raw(rng: &mut Rng, g: &Gen, data: &[u8], prev: &[Op]) -> Op {
@@ -639,7 +891,7 @@ fn thread_section(rng: &mut Rng, g: &Gen, data: &[u8], prev: &mut Vec<Op>, ops: 
         remaining[k] -= 1;
         total -= 1;
         let op = if rng.chance(1, 3) { *rng.pick(&hot) } else { gen_op(rng, g, data, prev) };
-        prev.push(op);
+        prev.push(op.under(g.len));
         ops.push(format!("t {k} {}", op.line()));
     }
     ops.push("sync".to_string());
@@ -682,6 +934,190 @@ fn first_touch_case(rng: &mut Rng, threads: u64, rounds: u64) -> Vec<String> {
     ops
 }
 
+/// the shared.rs layer at the boundaries: `read_entire_data` on a fresh cache and after partial reads, the
+/// `ReadRef` impl of the wrapper, views starting at / straddling chunk boundaries and EOF, nested sub-ranges
+/// (sizes 0 / tiny / huge: never consulted), shifted offsets overflowing u64
+fn shared_layer_case(len: u64, entire_first: bool) -> Case {
+    let g = Gen { len, seed: 50, pat: 1, period: 1000, bad_lo: 0, bad_hi: 0 };
+    let mut ops = vec![g.line()];
+    let mut p = |o: Op| ops.push(o.line());
+    let v = |base: Option<(u64, u64)>, subs: &[(u64, u64)]| {
+        let mut a = [(0u64, 0u64); 3];
+        a[..subs.len()].copy_from_slice(subs);
+        ViewSpec { base, subs: a, k: subs.len() }
+    };
+    if entire_first {
+        p(Op::Entire);
+    }
+    p(Op::WRead(0, len.min(7)));
+    p(Op::WRead(len.saturating_sub(3), 3));
+    p(Op::WRead(len.saturating_sub(3), 4));
+    p(Op::WRead(u64::MAX, 2));
+    p(Op::WRead(len, 0));
+    p(Op::WUntil(10, 100.min(len), 0));
+    p(Op::WUntil(10, 50.min(len), 0));
+    p(Op::WUntil(5, 4, 0));
+    p(Op::WUntil(0, len + 1, 0));
+    p(Op::VRead(v(None, &[]), 0, len.min(9)));
+    p(Op::VRead(v(None, &[]), len.saturating_sub(1), 1));
+    p(Op::VRead(v(None, &[]), len, 1));
+    p(Op::VUntil(v(None, &[]), 10, len, 0));
+    for k in 0..=(len / CH) {
+        let b = k * CH;
+        // a view that starts just before a chunk boundary; reads inside it, across the boundary, past its size
+        p(Op::VRead(v(Some((b.saturating_sub(5), 10)), &[]), 0, 10));
+        p(Op::VRead(v(Some((b.saturating_sub(5), 10)), &[]), 3, 20));
+        p(Op::VRead(v(Some((b.saturating_sub(5), 10)), &[(2, 0), (3, 1)]), 0, 1));
+        p(Op::VRead(v(Some((0, 0)), &[(b, u64::MAX), (0, 0), (1, 1)]), 0, 2));
+        p(Op::VUntil(v(Some((b.saturating_sub(60), 4)), &[(7, 2)]), 0, 2000, 0));
+    }
+    p(Op::VRead(v(Some((len, 5)), &[]), 0, 0));
+    p(Op::VRead(v(Some((len, 5)), &[]), 0, 1));
+    p(Op::VRead(v(Some((len.saturating_sub(2), 5)), &[(1, 1)]), 0, 1));
+    p(Op::VRead(v(Some((len.saturating_sub(2), 5)), &[(1, 1)]), 0, 2));
+    // shifted offsets at the top of u64
+    p(Op::VRead(v(Some((u64::MAX, 5)), &[]), 0, 1));
+    p(Op::VRead(v(Some((u64::MAX, 5)), &[]), 1, 1));
+    p(Op::VRead(v(Some((u64::MAX, 5)), &[]), 1, 0));
+    p(Op::VRead(v(Some((u64::MAX - 9, 5)), &[(4, 1), (5, 1)]), 0, 1));
+    p(Op::VRead(v(Some((u64::MAX - 9, 5)), &[(4, 1), (5, 1)]), 1, 1));
+    p(Op::VUntil(v(Some((u64::MAX - 9, 5)), &[]), 5, 20, 0));
+    p(Op::VUntil(v(Some((u64::MAX - 9, 5)), &[]), 20, 5, 0));
+    p(Op::VUntil(v(Some((3, 5)), &[]), 20, 5, 0));
+    if !entire_first {
+        p(Op::Entire);
+    }
+    p(Op::Read(0, len));
+    Case { name: format!("shared-layer-{len}-{}", if entire_first { "entire-first" } else { "entire-last" }), ops }
+}
+
+/// many buffers: `chunks` distinct chunks are touched once each, in a scrambled order, by small reads,
+/// delimited reads and reads straddling into the next chunk (so that hundreds of buffers, range-map entries
+/// and string-cache entries exist); then the earliest requests, a sample of all of them and their neighbours
+/// are issued again, the delimited ones also with another end. A cache that keeps only the most recent N
+/// buffer ranges / strings, or whose range-map values stop matching the positions in `buffer_ranges`, shows
+/// up here.
+fn many_chunks_case(rng: &mut Rng, chunks: u64) -> Case {
+    let len = chunks * CH + 777;
+    let g = Gen { len, seed: rng.below(2000), pat: 1, period: 2003, bad_lo: 0, bad_hi: 0 };
+    let mut ops = vec![g.line()];
+    let mut order: Vec<u64> = (0..chunks).collect();
+    for i in (1..order.len()).rev() {
+        let j = rng.below(i as u64 + 1) as usize;
+        order.swap(i, j);
+    }
+    let mut first: Vec<Op> = Vec::new();
+    for &c in &order {
+        let off = c * CH + rng.below(CH - 100);
+        let op = match rng.below(6) {
+            0 | 1 => Op::Until(off, (off + 4096).min(len), 0),
+            2 => Op::Read(c * CH + CH - 10, 30), // straddles into chunk c+1
+            _ => Op::Read(off, rng.range(1, 90)),
+        };
+        first.push(op);
+        ops.push(op.line());
+    }
+    let again = |op: Op, rng: &mut Rng| -> Vec<Op> {
+        match op {
+            Op::Until(a, b, d) => vec![op, Op::Until(a, a + rng.range(1, 2100), d), Op::Until(a, b, 1)],
+            Op::Read(o, n) => vec![op, Op::Read(o.saturating_sub(rng.below(50)), n + rng.below(50))],
+            o => vec![o],
+        }
+    };
+    for i in 0..first.len().min(48) {
+        for o in again(first[i], rng) {
+            ops.push(o.line());
+        }
+    }
+    for _ in 0..64 {
+        let op = *rng.pick(&first);
+        for o in again(op, rng) {
+            ops.push(o.line());
+        }
+    }
+    Case { name: format!("many-chunks-{chunks}"), ops }
+}
+
+/// a delimited read whose 4096-byte window starts inside an existing buffer and ends in an unread chunk (the
+/// new buffer starts mid-chunk, the string is cached with that buffer's handle and offset 0); then a long
+/// chunk-aligned read re-covers the whole region in the range map; then the string is asked for again (other
+/// end: string-cache hit, must still be served from the mid-chunk buffer), with another delimiter (miss:
+/// served from the newest buffer) and as plain reads. `dist` = distance from the window start to the zero byte.
+fn until_midchunk_case(start_back: u64, dist: u64) -> Case {
+    let lo = 5 * CH - start_back;
+    let g = Gen { len: 8 * CH + 5, seed: lo + dist, pat: 1, period: 1 << 40, bad_lo: 0, bad_hi: 0 };
+    let ops = vec![
+        g.line(),
+        Op::Read(5 * CH - 3000, 50).line(),          // buffer 0 = [4 CH, 5 CH)
+        Op::Until(lo, lo + 4096, 0).line(),          // start cached, window ends in chunk 5: buffer 1 = [lo, 6 CH)
+        Op::Read(5 * CH + 5, 10).line(),             // served from buffer 1
+        Op::Read(4 * CH - 5, 2 * CH + 10).line(),    // start not cached: buffer 2 = [3 CH, 7 CH) re-covers everything
+        Op::Until(lo, lo + dist + 1, 0).line(),      // string-cache hit, delimiter is the last byte of the range
+        Op::Until(lo, lo + dist, 0).line(),          // hit, delimiter just outside: must fail
+        Op::Until(lo, 8 * CH, 0).line(),             // hit
+        Op::Until(lo, lo + 4096, 7).line(),          // other delimiter: miss, served from buffer 2
+        Op::Until(lo + 1, lo + 4096, 0).line(),      // other start: miss
+        Op::Read(lo, dist + 2).line(),
+        Op::Read(6 * CH - 4, 8).line(),              // straddles the end of buffer 1, inside buffer 2
+        Op::WUntil(lo, lo + 4096, 0).line(),
+        Op::Read(7 * CH - 2, 4).line(),              // start cached in buffer 2, extends: buffer 3 mid-chunk
+        Op::Until(7 * CH - 1, 8 * CH, 0).line(),
+    ];
+    Case { name: format!("until-midchunk-{start_back}-{dist}"), ops }
+}
+
+/// a string that straddles a chunk boundary, cached from an aligned two-chunk buffer; then a buffer that ends
+/// exactly at that boundary is registered over the string's start (range map: last insert wins); then the
+/// string is asked for again (string-cache hit). The cached location `(buffer, offset)` must be used as it is: a
+/// location re-derived from the range map points into the newer, shorter buffer.
+fn until_straddle_rebuffered_case(back: u64) -> Case {
+    let g = Gen { len: 4 * CH + 9, seed: 77, pat: 0, period: 1, bad_lo: 0, bad_hi: 0 };
+    let lo = 2 * CH - back;
+    // a delimiter whose first occurrence at or after `lo` lies beyond the chunk boundary
+    let mut p = 2 * CH + 20;
+    while p < 2 * CH + 300 && (lo..p).any(|i| gen_byte(&g, i) == gen_byte(&g, p)) {
+        p += 1;
+    }
+    let d = gen_byte(&g, p);
+    let ops = vec![
+        g.line(),
+        Op::Until(lo, lo + 4096, d).line(),       // fresh: buffer 0 = [CH, 3 CH), string [lo, p) cached
+        Op::Read(CH - 5, 10).line(),              // chunk 0 not cached: buffer 1 = [0, 2 CH) now answers for `lo`
+        Op::Until(lo, p + 1, d).line(),           // hit; the string ends beyond buffer 1
+        Op::Until(lo, 4 * CH, d).line(),
+        Op::Until(lo, p, d).line(),               // delimiter just outside
+        Op::Read(lo, p - lo + 3).line(),          // start in buffer 1, end beyond it: buffer 2 starts mid-chunk at `lo`
+        Op::Until(lo, lo + 4096, d).line(),
+        Op::VUntil(ViewSpec { base: Some((lo - 3, 1)), subs: [(3, 0), (0, 0), (0, 0)], k: 1 }, 0, 4096, d).line(),
+        Op::Until(lo + 1, lo + 4096, d).line(),   // other start: miss, served from buffer 2
+    ];
+    Case { name: format!("until-straddle-rebuffered-{back}"), ops }
+}
+
+/// the excluded point of `Faithful`: the source reports success with a buffer of the wrong length for a
+/// request ending at EOF (file truncated / grown after its length was taken). With the last chunk cached
+/// beforehand nothing is fetched again and every answer stays right; otherwise the cache's `assert!`
+/// (cache.rs:67) fires: outcome `panic`, which ends the case.
+fn unfaithful_source_case(k: i64, cached_before: bool) -> Case {
+    let len = 2 * CH + 100;
+    let g = Gen { len, seed: 9, pat: 0, period: 1, bad_lo: 0, bad_hi: 0 };
+    let mut ops = vec![g.line(), Op::Read(10, 5).line()];
+    if cached_before {
+        ops.push(Op::Read(2 * CH + 10, 5).line());
+    }
+    ops.push(format!("srcmode {k}"));
+    ops.push(Op::Read(CH + 5, 10).line()); // buffer [CH, 2 CH): does not end at EOF
+    ops.push(Op::Into(len - 20, 10).line());
+    ops.push(Op::Into(len - 10, 10).line()); // handed through with the wrong size
+    ops.push(Op::Read(2 * CH - 5, 4).line());
+    ops.push(Op::Read(len - 50, 10).line()); // cached: right bytes; not cached: plans [2 CH, len) => assert
+    ops.push(Op::Until(len - 90, len, 3).line());
+    ops.push(Op::Entire.line());
+    ops.push("srcmode 0".to_string());
+    ops.push(Op::Read(len - 1, 1).line());
+    Case { name: format!("unfaithful-source-{k}-{}", if cached_before { "cached" } else { "fresh" }), ops }
+}
+
 pub struct C13;
 
 impl Prop for C13 {
@@ -690,7 +1126,7 @@ impl Prop for C13 {
     }
     fn case_count(&self, tier: Tier) -> u64 {
         match tier {
-            Tier::Quick => 1500,
+            Tier::Quick => 1400,
             Tier::Thorough => 12000,
         }
     }
@@ -702,6 +1138,22 @@ impl Prop for C13 {
         }
         v.extend(planner_cases());
         v.push(failing_source_case());
+        for &len in &[0, 1, CH + 1, 3 * CH - 1] {
+            v.push(shared_layer_case(len, true));
+            v.push(shared_layer_case(len, false));
+        }
+        for &(back, dist) in &[(10, 500), (1, 4095), (2000, 2500), (4095, 4094), (300, 0)] {
+            v.push(until_midchunk_case(back, dist));
+        }
+        for &k in &[1i64, -2, 1000] {
+            v.push(unfaithful_source_case(k, true));
+            v.push(unfaithful_source_case(k, false));
+        }
+        for &back in &[10, 1, 40] {
+            v.push(until_straddle_rebuffered_case(back));
+        }
+        let mut r = Rng::new(0xC13);
+        v.push(many_chunks_case(&mut r, if _tier == Tier::Quick { 400 } else { 1500 }));
         for &len in &[u64::MAX, u64::MAX - CH + 1, u64::MAX - CH, u64::MAX - 3 * CH + 17] {
             v.push(huge_case(len, 0));
             v.push(huge_case(len, 1));
@@ -712,8 +1164,13 @@ impl Prop for C13 {
         if rng.chance(1, 30) {
             return gen_huge_case(rng);
         }
-        // quick: ~1 in 12 cases is a first-touch race; thorough: 1 in 6
-        if rng.chance(1, if tier == Tier::Quick { 12 } else { 6 }) {
+        // thorough only (each costs the model a few seconds): another many-buffers history with its own order
+        if tier == Tier::Thorough && rng.chance(1, 1000) {
+            let chunks = rng.range(260, 460);
+            return many_chunks_case(rng, chunks).ops;
+        }
+        // quick: ~1 in 8 cases is a first-touch race; thorough: 1 in 6
+        if rng.chance(1, if tier == Tier::Quick { 8 } else { 6 }) {
             let threads = *rng.pick(&[2u64, 2, 3, 4, 8]);
             let rounds = rng.range(1, 4);
             return first_touch_case(rng, threads, rounds);
@@ -727,17 +1184,27 @@ impl Prop for C13 {
             Tier::Thorough => rng.chance(1, 8),
         };
         let n = if rng.chance(1, 8) { rng.range(60, 150) } else { rng.range(2, 40) };
-        for _ in 0..n {
+        // 1 case in 40: from some point on the source answers requests ending at EOF with the wrong length
+        let unfaithful_at = if g.len > 0 && rng.chance(1, 40) { Some(rng.below(n)) } else { None };
+        for i in 0..n {
+            if unfaithful_at == Some(i) {
+                ops.push(format!("srcmode {}", *rng.pick(&[1i64, 2, 7, -1, -5, 100000])));
+            }
             let op = gen_op(rng, &g, &data, &prev);
-            prev.push(op);
+            prev.push(op.under(g.len));
             ops.push(op.line());
         }
         if with_threads {
+            // thread sections always run with the faithful source (a panic inside a section cannot be
+            // attributed to one listed call)
+            if unfaithful_at.is_some() {
+                ops.push("srcmode 0".to_string());
+            }
             let per = rng.range(4, 16);
             thread_section(rng, &g, &data, &mut prev, &mut ops, 8, per);
             for _ in 0..rng.range(0, 6) {
                 let op = gen_op(rng, &g, &data, &prev);
-                prev.push(op);
+                prev.push(op.under(g.len));
                 ops.push(op.line());
             }
         }
@@ -770,7 +1237,8 @@ impl Prop for C13 {
         let calls = Arc::new(AtomicU64::new(0));
         let unaligned = Arc::new(AtomicU64::new(0));
         let gate = Arc::new(Gate::new());
-        let source = MemSource { g, data: g.materialise().map(Arc::new), calls: calls.clone(), unaligned_calls: unaligned.clone(), gate: gate.clone() };
+        let mode = Arc::new(AtomicI64::new(0));
+        let source = MemSource { g, data: g.materialise().map(Arc::new), calls: calls.clone(), unaligned_calls: unaligned.clone(), gate: gate.clone(), mode: mode.clone() };
         let cache: Cache = FileContentsWrapper::new(FileContentsWithChunkedCaching::new(g.len, source));
         let parsed: Vec<(Option<u64>, Option<Op>)> = ops[1..]
             .iter()
@@ -794,6 +1262,21 @@ impl Prop for C13 {
                 i += 1;
                 continue;
             }
+            if let Some(k) = ops[1 + i].trim().strip_prefix("srcmode ") {
+                match k.trim().parse::<i64>() {
+                    Ok(k) if k.unsigned_abs() <= 1 << 20 => {
+                        mode.store(k, Ordering::SeqCst);
+                        stats.bump("srcmode_lines(unfaithful_source)");
+                        out.push("srcmode".to_string());
+                        i += 1;
+                        continue;
+                    }
+                    _ => {
+                        out.push("bad-op".to_string());
+                        return out;
+                    }
+                }
+            }
             match parsed[i] {
                 (_, None) => {
                     out.push("bad-op".to_string());
@@ -803,7 +1286,7 @@ impl Prop for C13 {
                     let (c0, u0) = (calls.load(Ordering::SeqCst), unaligned.load(Ordering::SeqCst));
                     match run_op(&cache, op) {
                         Some(line) => {
-                            if !matches!(op, Op::Into(..)) && line.starts_with("ok ") && !line.starts_with("ok 0 ") {
+                            if !matches!(op, Op::Into(..) | Op::Entire) && line.starts_with("ok ") && !line.starts_with("ok 0 ") {
                                 if calls.load(Ordering::SeqCst) == c0 {
                                     stats.bump("served_from_cache");
                                 } else if unaligned.load(Ordering::SeqCst) != u0 {
@@ -816,7 +1299,7 @@ impl Prop for C13 {
                             out.push(line);
                         }
                         None => {
-                            stats.bump("panics");
+                            stats.bump(if mode.load(Ordering::SeqCst) != 0 { "panics_under_unfaithful_source" } else { "panics" });
                             out.push("panic".to_string());
                             return out;
                         }
@@ -896,10 +1379,31 @@ fn count_outcome(stats: &mut Stats, op: Op, line: &str, g: &Gen) {
         Op::Read(..) => "read",
         Op::Until(..) => "until",
         Op::Into(..) => "into",
+        Op::Entire => "entire",
+        Op::WRead(..) => "wread",
+        Op::WUntil(..) => "wuntil",
+        Op::VRead(..) => "vread",
+        Op::VUntil(..) => "vuntil",
     };
     let res = if line.starts_with("ok") { "ok" } else { line };
     stats.bump(&format!("{kind}_{res}"));
-    match op {
+    if let Op::VRead(v, o, _) | Op::VUntil(v, o, _, _) = op {
+        stats.bump(&format!("view_with_{}_nested_subranges", v.k));
+        match v.start() {
+            None => stats.bump("view_make_subrange_start_overflows_u64"),
+            Some(s) if s.checked_add(o).is_none() => stats.bump("view_shifted_offset_overflows_u64"),
+            Some(s) => {
+                // does the request reach beyond the view's own size (shared.rs does not restrict it)?
+                let size = if v.k > 0 { v.subs[v.k - 1].1 } else { v.base.map_or(g.len, |b| b.1) };
+                if let Op::VRead(_, o, n) = op {
+                    if o.saturating_add(n) > size && s.saturating_add(o).saturating_add(n) <= g.len && n > 0 {
+                        stats.bump("view_read_beyond_view_size_inside_file");
+                    }
+                }
+            }
+        }
+    }
+    match op.under(g.len) {
         Op::Read(o, n) if n > 0 => {
             if let Some(e) = o.checked_add(n) {
                 if e <= g.len {
